@@ -335,6 +335,23 @@ def r5(ctx, rep):
               "literal than the one-shot one", file="Cargo.toml", line=1, fn="workspace.dependencies.serde_json")
 
 
+def r6(ctx, rep):
+    rep.rule("C15.R6", "the JSON reader accepts every document the JSON writer produces: no nesting bound on one side only", floor=2)
+    syn = ctx.syn
+    readers = [f for f in syn.fns if f["crate"] == "prqlc" and "body" in f and f["file"].endswith("prqlc/src/lib.rs") and "::json::" in f["path"]
+               and any(n.get("k") == "call" and re.search(r"serde_json::(from_str|from_slice|from_reader)$", show(n["f"])) for n in walk(f["body"]))]
+    writers = [f for f in syn.fns if f["crate"] == "prqlc" and "body" in f and f["file"].endswith("prqlc/src/lib.rs") and "::json::" in f["path"]
+               and any(n.get("k") == "call" and re.search(r"serde_json::to_(string|vec|writer)(_pretty)?$", show(n["f"])) for n in walk(f["body"]))]
+    rep.check(len(writers) >= 2, "writers", f"expected from_pl / from_rq to write with serde_json::to_string, found {[w['name'] for w in writers]}")
+    # the document types are recursive (Expr -> Box<Expr>): the driver's reachability rows contain an owner that reaches itself
+    for f in readers:
+        unlimited = any(n.get("k") == "mcall" and n["m"] == "disable_recursion_limit" for n in walk(f["body"]))
+        rep.check(unlimited, f"reader-depth:{f['name']}", f"{f['path']} reads with serde_json::from_str, which stops at 128 nested values, while the writer and every compiler stage have no nesting bound: "
+                  "`from t | select x = a + a + .. + a` with 40 terms compiles in one shot and fails with `recursion limit exceeded` when the PL document is read back",
+                  file=f["file"], line=f["l"], fn=f["path"])
+    rep.check(len(readers) >= 2, "readers", f"expected to_pl / to_rq among the JSON readers, found {[r_['name'] for r_ in readers]}")
+
+
 def run(ctx, rep):
-    for r in (r1, r2, r3, r4, r5):
+    for r in (r1, r2, r3, r4, r5, r6):
         rep.guard(r, ctx)
